@@ -15,7 +15,6 @@ import (
 	"strings"
 	"testing"
 
-	rlog "github.com/alibaba/RedisShake/pkg/libs/log"
 	run "github.com/alibaba/RedisShake/redis-shake"
 	conf "github.com/alibaba/RedisShake/redis-shake/configure"
 	"pgregory.net/rapid"
@@ -163,8 +162,7 @@ func c17Case(t *rapid.T) {
 		stats.C.Exclude("files are generated with finite scores only (known finding abort:zset-score-nonfinite)")
 	}
 	parallel := rapid.IntRange(1, 8).Draw(t, "parallel")
-	rlog.SetLevel(rlog.LEVEL_INFO)
-	defer rlog.SetLevel(rlog.LEVEL_ALL)
+	defer quietLog()()
 	c17Check(t, f, parallel)
 }
 
@@ -266,8 +264,7 @@ func handFile(records []gen.Record) *gen.File {
 }
 
 func TestC17Regress(t *testing.T) {
-	rlog.SetLevel(rlog.LEVEL_INFO)
-	defer rlog.SetLevel(rlog.LEVEL_ALL)
+	defer quietLog()()
 	// fixed: an infinite score made the JSON encoder fail -> abort
 	zv := gen.Value{Kind: "zset", ZSet: []gen.ZE{{Member: []byte("m"), Score: math.Inf(1)}}}
 	val := append(gen.AppendLen(nil, 1, 0), gen.AppendRawString(nil, []byte("m"))...)
